@@ -697,9 +697,21 @@ func (c *fileCtx) renderSet(s *Set) {
 		c.pf("var %s = %s%s\n\n", s.Name, c.q(t.Pkg), t.Name)
 		return
 	}
+	if s.Joined {
+		return
+	}
 	var ms []string
 	for _, m := range s.Members {
 		ms = append(ms, c.refExpr(m))
+	}
+	if s.JoinWith > 0 {
+		t := c.p.Sets[s.JoinWith-1]
+		var ts []string
+		for _, m := range t.Members {
+			ts = append(ts, c.refExpr(m))
+		}
+		c.pf("var %s, %s = %s.NewSet(%s), %s.NewSet(%s)\n\n", s.Name, t.Name, c.wire(), strings.Join(ms, ", "), c.wire(), strings.Join(ts, ", "))
+		return
 	}
 	if len(s.BlankSibling) > 0 {
 		var bs []string
